@@ -249,3 +249,56 @@ Definition outcome_eqb_other (a : option err * vec) (e : option err) (d : vec) :
 
 Definition build_all (rs : list (res rxn)) : res (list rxn) :=
   fold_right (fun r acc => do x <- r; do l <- acc; Ok (x :: l)) (Ok []) rs.
+
+(* ---------- constructing the callable objects (ReactionSet.__init__, ReactionSystem.__init__) ---------- *)
+Definition same_basis (rs : list rxn) : res bool :=
+  match rs with
+  | [] => Err EValue                       (* 'no reactions passed' *)
+  | r :: t => if forallb (fun x => Bool.eqb (wt x) (wt r)) t then Ok (wt r) else Err EValue
+  end.
+
+Inductive okind := KSingle | KParallel | KSeries.
+
+Definition mk_set (k : okind) (rs : list (res rxn)) : res (bool * rset) :=
+  do l <- build_all rs;
+  match k with
+  | KSingle => match l with [r] => Ok (wt r, Single r) | _ => Err EOther end
+  | KParallel => do b <- same_basis l; Ok (b, Parallel l)
+  | KSeries => do b <- same_basis l; Ok (b, Series l)
+  end.
+
+Definition mk_simple (p : res (bool * rset)) : res robj :=
+  do x <- p; Ok (Simple (fst x) (snd x)).
+
+Definition build_parts (ps : list (res (bool * rset))) : res (list (bool * rset)) :=
+  fold_right (fun r acc => do x <- r; do l <- acc; Ok (x :: l)) (Ok []) ps.
+
+Definition mk_system (ps : list (res (bool * rset))) : res robj :=
+  do l <- build_parts ps;
+  match l with
+  | [] => Err EValue
+  | (b, _) :: t => if forallb (fun p => Bool.eqb (fst p) b) t then Ok (System b l) else Err EValue
+  end.
+
+(* member.basis = b on a Reaction that is already part of a ReactionSystem *)
+Definition rebase_part (mws : vec) (o : res robj) (i : nat) (b : bool) : res robj :=
+  do o' <- o;
+  match o' with
+  | System b0 parts =>
+      match nth_error parts i with
+      | Some (_, Single r) => do r' <- set_basis mws r b; Ok (System b0 (upd parts i (b, Single r')))
+      | _ => Err EType
+      end
+  | _ => Err EType
+  end.
+
+Definition rebase (mws : vec) (r : res rxn) (b : bool) : res rxn := do x <- r; set_basis mws x b.
+
+(* the whole observation of one case: constructor exception, or call outcome *)
+Definition case_eqb (other : bool) (o : res robj) (run : robj -> option err * vec)
+           (ctor_err : option err) (e : option err) (d : vec) : bool :=
+  match o with
+  | Err x => oerr_eqb (Some x) ctor_err
+  | Ok ob => oerr_eqb None ctor_err &&
+             (if other then outcome_eqb_other (run ob) e d else outcome_eqb (run ob) e d)
+  end.
